@@ -283,7 +283,7 @@ PROPS = {
         "kind": "c13",
         "module": "Props.C13",
         "namespace": "Jl.C13",
-        "extra_theorem_files": [("Proofs.Pairings", "Jl.Pairings")],
+        "extra_theorem_files": [("Proofs.Pairings", "Jl.Pairings"), ("Proofs.RowRoundTrip", "Jl.RowRoundTrip")],
         "rule": ("every pairing of 8 formats x (18 raw types + none) — the ~95 of the lossless table AND the pairings outside it (to confirm the "
                  "table is tight) — x boundary and random values of the raw type (integers: bounds, +-1, powers of two; floats: +-0, "
                  "subnormals, extremes, 2^53+1, NaN/Inf; strings: valid UTF-8 incl. escapes-needing characters, look-alikes, and ill-formed "
